@@ -65,6 +65,11 @@ type NullT struct {
 	Time  time.Time
 }
 
+type NullD struct {
+	Valid bool
+	Date  Date
+}
+
 type OptTeam struct {
 	Valid bool
 	ID    IdTeam
@@ -97,10 +102,12 @@ type UserAccount struct {
 	FEnums  []KI
 	FCoord  Coord
 	FMixed  Mixed
+	FMixed2 Mixed
 	FMap    map[string]int
 	FNullI  NullInt
 	FNullS  NullStr
 	FNullT  NullT
+	FNullD  NullD
 	hidden  int
 	guard   KI ` + "`gomacro-sql-guard:\"#[KI.KI1]\"`" + `
 	Team    IdTeam
@@ -113,6 +120,12 @@ type UserAccount struct {
 type Team struct {
 	Name string
 	Id   IdTeam
+}
+
+// shared primary key: the id column itself refers to another table
+type Teacher struct {
+	Id   IdTeam ` + "`gomacro-sql-on-delete:\"CASCADE\"`" + `
+	Name string
 }
 
 type LinkRow struct {
@@ -162,8 +175,8 @@ func TestGovcHarness_Schema(t *testing.T) {
 		tables[m[1]] = cols
 		tableOrder = append(tableOrder, m[1])
 	}
-	// one table per struct of the file (9 structs), named snake-case-plural
-	wantTables := []string{"coords", "link_rows", "mixeds", "null_ints", "null_strs", "null_ts", "opt_teams", "teams", "user_accounts"}
+	// one table per struct of the file (11 structs), named snake-case-plural
+	wantTables := []string{"coords", "link_rows", "mixeds", "null_ds", "null_ints", "null_strs", "null_ts", "opt_teams", "teachers", "teams", "user_accounts"}
 	expect(fmt.Sprintf("one table per struct, snake-case plural (got %v)", tableOrder), len(tableOrder) == len(wantTables))
 	for _, w := range wantTables {
 		_, ok := tables[w]
@@ -198,10 +211,12 @@ func TestGovcHarness_Schema(t *testing.T) {
 		"FEnums integer[]",
 		"FCoord Coord NOT NULL",
 		"FMixed jsonb NOT NULL",
+		"FMixed2 jsonb NOT NULL",
 		"FMap jsonb NOT NULL",
 		"FNullI integer",
 		"FNullS text",
 		"FNullT timestamp (0) with time zone",
+		"FNullD date",
 		"guard integer CHECK (guard IN (0, 1, 2)) NOT NULL",
 		"Team integer NOT NULL",
 		"Parent integer NOT NULL",
@@ -231,12 +246,12 @@ func TestGovcHarness_Schema(t *testing.T) {
 		expect("validator constraint names its own column", m[1] == m[3])
 		jsonCols[m[1]] = m[2]
 	}
-	for _, c := range []string{"FMixed", "FMap"} {
+	for _, c := range []string{"FMixed", "FMixed2", "FMap"} {
 		fn, ok := jsonCols[c]
 		expect("jsonb column "+c+" has a validator CHECK", ok)
 		expect("validator "+fn+" of "+c+" is defined", ok && strings.Contains(out, "FUNCTION "+fn+" ("))
 	}
-	expect("only jsonb columns have validator CHECKs", len(jsonCols) == 2)
+	expect("only jsonb columns have validator CHECKs", len(jsonCols) == 3)
 
 	// ---- guard fields: default plus equality CHECK
 	expect("guard default", strings.Count(out, "ALTER TABLE user_accounts ALTER COLUMN guard SET DEFAULT 1 ") == 1 && strings.Count(out, "SET DEFAULT") == 1)
@@ -256,6 +271,7 @@ func TestGovcHarness_Schema(t *testing.T) {
 		{"link_rows", "IdUserAccount", "user_accounts", "ON DELETE CASCADE"},
 		{"link_rows", "IdTeam", "teams", ""},
 		{"opt_teams", "ID", "teams", ""},
+		{"teachers", "Id", "teams", "ON DELETE CASCADE"},
 	}
 	expect(fmt.Sprintf("exactly %d foreign key constraints (got %v)", len(wantFK), fks), len(fks) == len(wantFK))
 	for _, w := range wantFK {
@@ -269,6 +285,6 @@ func TestGovcHarness_Schema(t *testing.T) {
 	}
 	// an ID of the table itself (Id, Parent on user_accounts without tag) is not a foreign key
 	for _, g := range fks {
-		expect("no foreign key on "+g.table+"."+g.col+" towards itself without a tag", !(g.col == "Id" || g.col == "Parent"))
+		expect("no foreign key on "+g.table+"."+g.col+" towards itself without a tag", !(g.table == "user_accounts" && (g.col == "Id" || g.col == "Parent")))
 	}
 }
